@@ -96,6 +96,18 @@ def r1_population(ctx, repo):
                 okl = True
         elif isinstance(arg, ast.Call) and access_path(arg.func) == "max":
             okl = "population_id" in text(arg) and (s2 + ".individuals") in text(arg)
+    if not okl and rets:
+        # the tag handed to population() as a value term: max over the tags of all recorded individuals (a start value may be joined)
+        rt_ = [t for _, t in Terms(fn2).returns if t is not None]
+        if len(rt_) == 1 and isinstance(rt_[0], ast.Call) and access_path(rt_[0].func) == s2 + ".population" and rt_[0].args:
+            a_ = fuse(rt_[0].args[0])
+            if isinstance(a_, ast.Call) and access_path(a_.func) == "max" and a_.args:
+                comps = [n_ for n_ in ast.walk(a_) if isinstance(n_, (ast.ListComp, ast.GeneratorExp)) and len(n_.generators) == 1
+                         and access_path(n_.generators[0].iter) == s2 + ".individuals" and not n_.generators[0].ifs
+                         and text(n_.elt) == "%s.population_id" % text(n_.generators[0].target)]
+                key_ = [k.value for k in a_.keywords if k.arg == "key"]
+                if len(comps) == 1 and not key_:
+                    okl = True
     if okl:
         ctx.holds("R1", C2, where(mod, fn2), "default query = population(maximum tag over the recorded individuals)")
     else:
